@@ -88,8 +88,13 @@ type c04State struct {
 	fmu     sync.Mutex
 	flights map[int64]*c04Flight // registry calls that have started and not yet returned
 	fseq    int64
-	hung    string // non-empty: the case was abandoned, with what was in flight
+	hung    string        // non-empty: the case was abandoned, with what was in flight
+	release chan struct{} // closed by the U record (or at the end): handlers parked by nW go on
+	relOnce sync.Once
+	parked  atomic.Int64 // handlers currently parked in nW (they do not count as running)
 }
+
+func (st *c04State) unpark() { st.relOnce.Do(func() { close(st.release) }) }
 
 // a start barrier for free goroutines (G records with b = 1): they park in a spin loop until the
 // next Z record releases all of them together, so that their registry calls really overlap
@@ -197,6 +202,16 @@ func (st *c04State) prepare(o c04Op, who string) func() {
 			st.info[rid] = info
 			st.touched[c04Key{kind, st.curSer}] = true
 			st.mu.Unlock()
+		}
+	case "W": // nW: the handler blocks until the history releases it (a slow background handler)
+		return func() {
+			st.parked.Add(1)
+			st.poke()
+			select {
+			case <-st.release:
+			case <-time.After(60 * time.Second):
+			}
+			st.parked.Add(-1)
 		}
 	case "R":
 		rid := o.a
@@ -347,7 +362,7 @@ func c04Exec(in Fields) Fields {
 		regs: map[int]*c04RegRec{}, rems: map[int]client.Remover{}, used: map[int]bool{},
 		scripts: map[[2]int][]c04Op{}, fired: map[[2]int]bool{},
 		counts: map[c04Key]map[int]int{}, first: map[c04Key]int64{}, touched: map[c04Key]bool{}, info: map[int][2]string{},
-		signal: make(chan struct{}, 1), flights: map[int64]*c04Flight{},
+		signal: make(chan struct{}, 1), flights: map[int64]*c04Flight{}, release: make(chan struct{}),
 	}
 	st.ws = NewWireSession(nil)
 	// a hung client is abandoned (leaked): closing it could block as well
@@ -356,6 +371,7 @@ func c04Exec(in Fields) Fields {
 			st.ws.Close()
 		}
 	}()
+	defer st.unpark()
 	giveUp := func(what string) Fields {
 		fl := st.inFlight()
 		if fl == "" {
@@ -460,6 +476,8 @@ func c04Exec(in Fields) Fields {
 					st.perform(x, fmt.Sprintf("free goroutine %d", o.a))
 				}
 			}()
+		case "U": // release the handlers parked by nW
+			st.unpark()
 		case "Z": // release the parked goroutines, once all of them have reached the barrier
 			if bar != nil {
 				b := bar
@@ -515,7 +533,7 @@ func c04Exec(in Fields) Fields {
 				return ok
 			})
 			bgStamp := st.clock.Add(1)
-			quiet := func() bool { return st.started.Load() == st.done.Load() }
+			quiet := func() bool { return st.started.Load() == st.done.Load()+st.parked.Load() }
 			if !st.waitFor(200*time.Millisecond, func() bool { return quiet() && bgCount() >= expect }) {
 				st.mu.Lock()
 				window := st.touched[kb]
@@ -542,6 +560,7 @@ func c04Exec(in Fields) Fields {
 			st.mu.Unlock()
 		}
 	}
+	st.unpark()
 	if !joined() {
 		return giveUp("the free goroutines did not finish")
 	}
@@ -932,6 +951,20 @@ func c04GenBurst(r *Rand) Fields {
 	return in
 }
 
+// "park" history: 34-40 events of one name, each with a background handler that blocks until the END
+// of the history (a slow background handler), a foreground handler and the background sentinel:
+// background handlers "do not block the event loop" — every event's foreground handler (and the
+// sentinel) must still be invoked; after the release one more event.
+func c04GenPark(r *Rand) Fields {
+	base := r.Pick(c04Bases)
+	in := F("park", "B", c04Variant(r, base), 100, 0, "H", c04Variant(r, base), 1, 1, "B", c04Variant(r, base), 2, 2)
+	n := r.Range(34, 40)
+	for k := 1; k <= n; k++ {
+		in = append(in, F("N", "", 2, k, "nW", "", 0, 0, "E", c04Variant(r, base), 0, 0)...)
+	}
+	return append(in, F("U", "", 0, 0, "E", c04Variant(r, base), 0, 0)...)
+}
+
 func c04Gen(r *Rand, tier string, scale int, emit func(Fields)) {
 	if scale == 0 {
 		scale = 300
@@ -945,6 +978,10 @@ func c04Gen(r *Rand, tier string, scale int, emit func(Fields)) {
 	for i := 0; i < scale && c04HungCases < 3; i++ {
 		if i%6 == 5 {
 			live(c04GenBurst(r.Fork()))
+			continue
+		}
+		if i == 8 || i == 150 {
+			live(c04GenPark(r.Fork()))
 			continue
 		}
 		live(c04GenOne(r.Fork(), i%4 == 3))
